@@ -16,7 +16,7 @@ for rnd in (1, 2, 3):
             src = "/tmp/mut2/wt_C14/seed"      # the C14 check was built later: its first seed came with round 2
         dst = os.path.join(ROOT, "seeded", tag)
         log = os.path.join(ROOT, "work", "seedtry", tag, "log")
-        if os.path.exists(os.path.join(src, "patch.diff")):
+        if os.path.exists(os.path.join(src, "patch.diff")) and os.path.exists(os.path.join(src, "meta.json")):
             os.makedirs(dst, exist_ok=True)
             for f in ("patch.diff", "demo.diff"):
                 if os.path.exists(os.path.join(src, f)):
